@@ -18,10 +18,17 @@ import traceback
 from . import tlc
 
 VERIF = tlc.VERIF
-EVIDENCE = os.path.join(VERIF, "evidence")
-REPLAY = os.path.join(VERIF, "replay")
+# both can be redirected (tools/seeded.py runs the checks against changed trees and must not
+# overwrite the evidence of the real tree)
+EVIDENCE = os.environ.get("VERIF_EVIDENCE_DIR") or os.path.join(VERIF, "evidence")
+REPLAY = os.environ.get("VERIF_REPLAY_DIR") or os.path.join(VERIF, "replay")
 REPO = os.environ.get("VERIF_REPO", "/repo")
 NPROC = min(16, os.cpu_count() or 4)
+
+
+def _drop(path: str):
+    if not os.environ.get("VERIF_KEEP"):
+        os.unlink(path)
 
 
 def cps(s: str) -> list[int]:
@@ -76,6 +83,9 @@ class Check:
         return os.path.join(self.scratch, name)
 
     def cleanup(self):
+        if os.environ.get("VERIF_KEEP"):  # debugging aid: keep case / observation / verdict files
+            print(f"[{self.pid}] scratch kept: {self.scratch}")
+            return
         shutil.rmtree(self.scratch, ignore_errors=True)
 
     # ---- TLC -------------------------------------------------------------------
@@ -120,7 +130,7 @@ class Check:
         cases = []
         for o in outs:
             cases += read_ndjson(o)
-            os.unlink(o)
+            _drop(o)
         return cases
 
     def judge(self, module: str, obs: list[dict], nshards: int = NPROC, env: dict | None = None, timeout=3600) -> list[dict]:
@@ -146,8 +156,8 @@ class Check:
             if len(v) != n:
                 raise tlc.MachineryError(f"judge {module}: {len(v)} verdicts for {n} observations")
             verdicts += v
-            os.unlink(inp)
-            os.unlink(out)
+            _drop(inp)
+            _drop(out)
         return verdicts
 
     # ---- verdict handling ------------------------------------------------------
